@@ -10,9 +10,12 @@ export CARGO_NET_OFFLINE=true RUST_BACKTRACE=0 RUST_LIB_BACKTRACE=0
 export VERIF_DIR="$VERIF"
 REPLAY_PATH=""
 if [ "${1:-}" = "replay" ]; then REPLAY_PATH="$(realpath "${2:?path}")"; fi
+mkdir -p "$VERIF/.work" "$VERIF/evidence" "$VERIF/replays"
+# links + builds are serialised across checks that are started at the same time (the runs themselves are not)
+exec 9>"$VERIF/.work/build.lock"
+command -v flock >/dev/null 2>&1 && flock 9
 "$VERIF/links.sh" || { echo "MACHINERY-ERROR: links.sh failed"; exit 2; }
 cd "$VERIF/harness"
-mkdir -p "$VERIF/.work" "$VERIF/evidence" "$VERIF/replays"
 build() {
   local log
   log="$(mktemp "$VERIF/.work/build.XXXXXX")"
@@ -39,6 +42,8 @@ esac
 case "${1:-}" in
   C15|replay) build --profile ovf ;;
 esac
+command -v flock >/dev/null 2>&1 && flock -u 9
+exec 9>&-
 if [ "${1:-}" = "replay" ]; then
   exec "$VERIF/harness/target/release/h8verif" replay "$REPLAY_PATH"
 fi
